@@ -43,11 +43,12 @@ Definition entry_ok (k : nat) (m : @mem Z) (bo bi : positive) (i : Z) : bool :=
   optz_eqb (read_elem m bo i) (Z.lxor i (Z.shiftr i 1)) &&
   optz_eqb (read_elem m bi i) (Z.min (tzZ (i + 1)) (Z.of_nat k - 1)).
 
-Definition check_codebook (k : nat) : bool :=
-  match run_build_code k with
+Definition check_rb (k : nat) (rb : res (option (@val Z) * @mem Z) * positive * positive) : bool :=
+  match rb with
   | (Ok (None, m), bo, bi) => all_pow k (entry_ok k m bo bi) 0
   | _ => false
   end.
+Definition check_codebook (k : nat) : bool := check_rb k (run_build_code k).
 
 (* [vm_cast_no_check]: the computation runs once, when Qed type-checks the cast in the kernel *)
 Lemma codebook_sweep_1_15 : forallb check_codebook (seq 1 15) = true.
@@ -90,13 +91,10 @@ Qed.
 
 (* stated for an arbitrary outcome [rb] so that Qed never has to look inside the interpreter *)
 Lemma check_sound_gen k (rb : res (option (@val Z) * @mem Z) * positive * positive) : (1 <= k)%nat ->
-  match rb with
-  | (Ok (None, m), bo, bi) => all_pow k (entry_ok k m bo bi) 0
-  | _ => false
-  end = true ->
+  check_rb k rb = true ->
   exists m, fst (fst rb) = Ok (None, m) /\ tables_are k m (snd (fst rb)) (snd rb) (build_code k).
 Proof.
-  intros Hk H. destruct rb as [[r bo] bi]. cbn [fst snd].
+  intros Hk H. unfold check_rb in H. destruct rb as [[r bo] bi]. cbn [fst snd].
   destruct r as [[[v|] m]| | | |]; try discriminate.
   exists m. split; [reflexivity|]. intros i Hi.
   assert (Hz : 0 <= Z.of_nat i < 0 + 2 ^ Z.of_nat k).
@@ -116,7 +114,7 @@ Qed.
 Lemma check_codebook_sound k : (1 <= k)%nat -> check_codebook k = true ->
   exists m, fst (fst (run_build_code k)) = Ok (None, m) /\
             tables_are k m (snd (fst (run_build_code k))) (snd (run_build_code k)) (build_code k).
-Proof. intros Hk H. exact (check_sound_gen k (run_build_code k) Hk H). Qed.
+Proof. intros Hk H. unfold check_codebook in H. exact (check_sound_gen k _ Hk H). Qed.
 
 (** C19, code book part: for every k = 1..16 the model's code book is a Gray code book in the
     sense consumed by mzd_make_table, and the translated C code writes exactly that code book. *)
